@@ -103,11 +103,12 @@ Record17LU(t, l, u) ==
           min |-> l.min, sec |-> l.sec, hsec |-> 0, off |-> GmtOffsetQ(l, u)]
 Record17(t, offmin) == Record17LU(t, LocalTm(t, offmin), GmTm(t))
 
-\* UDFTimestamp.new(date_seconds): tz = UdfZoneUnit * the helper's result.  The code stores the
-\* helper's count of quarter hours as it is (factor 1); should the code be repaired (ECMA-167
-\* wants minutes: factor 15) this constant follows it - clause ModelAgrees of Judge_Dates tells
+\* UDFTimestamp.new(date_seconds): self.tz = 15 * utils.gmtoffset_from_tm(date_seconds, local):
+\* the helper counts quarter hours, ECMA-167 1/7.3.1 wants minutes, the code converts (factor
+\* UdfZoneUnit = 15; it was 1 - the helper's count stored as it is - before the repair "UDF
+\* timestamps record the offset from UTC in minutes").  Clause ModelAgrees of Judge_Dates tells
 \* when the transcription and the code have drifted apart.
-UdfZoneUnit == 1
+UdfZoneUnit == 15
 RecordUdfLU(l, u) ==
     [type |-> 1, tz |-> UdfZoneUnit * GmtOffsetQ(l, u), year |-> l.year, mon |-> l.mon, mday |-> l.mday,
      hour |-> l.hour, min |-> l.min, sec |-> l.sec, csec |-> 0, husec |-> 0, usec |-> 0]
